@@ -181,7 +181,7 @@ Failed(e) ==
                        \cup FailedPostsA(e) \cup (IF DetSizeOK(e) THEN {} ELSE {"detsize-conformance"})
     [] e.op = "wlang" -> IF LangOK(e) THEN {} ELSE {"language"}
     [] e.op = "tocfg" -> IF ToCfgOK(e) THEN {} ELSE {"tocfg"}
-    [] e.op = "tobytes" -> IF ToBytesOK(e) THEN {} ELSE {"bytes"}
+    [] e.op = "tobytes" -> (IF ToBytesOK(e) THEN {} ELSE {"bytes"}) \cup (IF CallsOK(e) THEN {} ELSE {"bytes"})
     [] e.op = "gtobytes" -> IF GToBytesOK(e) THEN {} ELSE {"bytes"}
     [] e.op = "tcall" -> IF TCallOK(e) THEN {} ELSE {"relation"}
     [] e.op = "tcompose" -> (IF TComposeOK(e) THEN {} ELSE {"compose"})
